@@ -54,6 +54,14 @@ def generate(ck):
 
 def run_case(ck, desc):
     res, time, sched, fluid, _ = sim.build(desc)
+    if fluid is not None:
+        al_ = np.asarray(fluid.pvt_props["alpha"], dtype=float)
+        if not (np.all(np.isfinite(al_)) and np.all(al_ > 0)):
+            # a synthetic black-oil table whose total compressibility changes sign has a negative
+            # "diffusivity": the step matrix is then no longer diagonally dominant (it can be singular)
+            # and rounding-level residuals are not defined; such tables are not diffusion problems
+            ck.count("tables_skipped_nonpositive_diffusivity")
+            return False, {"skipped": "non-positive diffusivity in the table"}
     sim.SIM_EVENTS.clear()
     sim.reset_solver()
     sim.simulate(res, time, sched)
